@@ -474,6 +474,9 @@ func (c GCase) build() string {
 type recTransport struct {
 	mu   sync.Mutex
 	reqs []*http.Request
+	// chunked: manifest GETs are answered 200 without Content-Length and without a
+	// digest header (the client then has to find out size and digest by other means)
+	chunked bool
 }
 
 var helperManifest = []byte(`{"schemaVersion":2,"mediaType":"application/vnd.oci.image.manifest.v1+json","config":{"mediaType":"application/vnd.oci.empty.v1+json","digest":"sha256:44136fa355b3678a1146ad16f7e8649e94fb4fc21fe77e8310c060f61caaff8a","size":2},"layers":[]}`)
@@ -486,6 +489,10 @@ func (r *recTransport) RoundTrip(req *http.Request) (*http.Response, error) {
 	if req.Body != nil {
 		io.Copy(io.Discard, req.Body)
 		req.Body.Close()
+	}
+	if r.chunked && req.Method == http.MethodGet && strings.Contains(req.URL.Path, "/manifests/") {
+		return &http.Response{StatusCode: 200, Status: "200 OK", Proto: "HTTP/1.1", ProtoMajor: 1, ProtoMinor: 1,
+			Header: http.Header{"Content-Type": []string{helperDesc.MediaType}}, Body: io.NopCloser(bytes.NewReader(helperManifest)), ContentLength: -1, TransferEncoding: []string{"chunked"}, Request: req}, nil
 	}
 	// the helper manifest exists (so that Tag gets as far as its PUT)
 	if (req.Method == http.MethodGet || req.Method == http.MethodHead) && strings.HasSuffix(req.URL.Path, "/manifests/"+helperDesc.Digest.String()) {
@@ -529,13 +536,26 @@ func runG(c GCase) (res vt.Result, fail *vt.Fail) {
 		} else {
 			forms = []string{want.Reference, fq + ":" + want.Reference}
 		}
-		for _, form := range forms {
-			got, err := repo.ParseReference(form)
-			if err != nil {
-				return res, vt.Failf("C20/repository-parse-rejects", "Repository(%s).ParseReference(%q): %v", fq, form, err)
+		// a Repository whose own base reference carries a tag or a digest resolves
+		// the same forms to the same reference
+		bases := []string{fq, fq + ":basetag", fq + "@sha256:" + hex64}
+		for bi, base := range bases {
+			rp := repo
+			if bi > 0 {
+				var err error
+				rp, err = remote.NewRepository(base)
+				if err != nil {
+					return res, vt.Failf("C20/newrepository-rejects", "NewRepository(%q): %v", base, err)
+				}
 			}
-			if got.Registry != want.Registry || got.Repository != want.Repository || got.Reference != want.Reference {
-				return res, vt.Failf("C20/repository-parse-differs", "Repository(%s).ParseReference(%q) = %+v, expected %+v", fq, form, got, want)
+			for _, form := range forms {
+				got, err := rp.ParseReference(form)
+				if err != nil {
+					return res, vt.Failf("C20/repository-parse-rejects", "Repository(%s).ParseReference(%q): %v", base, form, err)
+				}
+				if got.Registry != want.Registry || got.Repository != want.Repository || got.Reference != want.Reference {
+					return res, vt.Failf("C20/repository-parse-differs", "Repository(%s).ParseReference(%q) = %+v, expected %+v", base, form, got, want)
+				}
 			}
 		}
 		res.Classes = append(res.Classes, "repository-forms-checked")
@@ -590,6 +610,15 @@ func runG(c GCase) (res vt.Result, fail *vt.Fail) {
 	for _, form := range forms {
 		repo.Resolve(ctx, form)
 		repo.FetchReference(ctx, form)
+		rt.mu.Lock()
+		rt.chunked = true
+		rt.mu.Unlock()
+		if _, rc, err := repo.FetchReference(ctx, form); err == nil {
+			rc.Close()
+		}
+		rt.mu.Lock()
+		rt.chunked = false
+		rt.mu.Unlock()
 		repo.PushReference(ctx, helperDesc, bytes.NewReader(helperManifest), form)
 		repo.Tag(ctx, helperDesc, form)
 		oras.Tag(ctx, repo, helperDesc.Digest.String(), form)
